@@ -26,7 +26,7 @@ SetsMem == { <<M("f1", 0)>>, <<M("f1", 8)>>, <<M("f1", 0), R("f2", 2, 1, 8)>> }
 MemEvents == IF \E r \in given : IsMem(r)
              THEN {[e |-> "sysmem", v |-> v, t |-> now] : v \in {0, 1024, 1536, 2048, 3000}} ELSE {}
 
-ResetEvents == {[e |-> "reset", t |-> 0, cfg |-> Cfg, align |-> 48, obs |-> 0]}   \* align: the harness epoch is a multiple of every interval
+ResetEvents == {[e |-> "reset", t |-> 0, cfg |-> Cfg, align |-> 1680, obs |-> 0]}   \* align: the harness epoch is a multiple of every interval
 LoadEvents == {[e |-> "load", fam |-> "flow", op |-> "all", t |-> now, rules |-> rs] : rs \in RuleSets}
 
 \* steps: none, 1, to just before / onto the next global bucket boundary, one bucket, the default
